@@ -65,7 +65,7 @@ impl Lfo {
         match waveshape {
             Waveshape::Sine => {
                 let lut_idx = self.phase_accumulator.index();
-                let next_lut_idx = (lut_idx + 1) % (lookup_tables::SINE_LUT_SIZE - 1);
+                let next_lut_idx = (lut_idx + 1) % lookup_tables::SINE_LUT_SIZE;
                 let y0 = lookup_tables::SINE_TABLE[lut_idx];
                 let y1 = lookup_tables::SINE_TABLE[next_lut_idx];
                 linear_interp(y0, y1, self.phase_accumulator.fraction())
